@@ -116,13 +116,15 @@ def gen(rng, budget, tier):
         if r < 0.2:
             # several requests decoded in one process, evaluated afterwards: the same expression with both
             # polarities, noop patterns in between (state shared between decodes must not leak)
-            pool = [b"a", b"ERROR", b"[ab]", b"x y", b"\\s", b".", b".*", b"k=v", b"caf\xc3\xa9", b"a;b", b"(?i)error", b"^a", b"b$"]
+            pool = [b"a", b"ERROR", b"[ab]", b"x y", b"\\s", b".", b".*", b"k=v", b"caf\xc3\xa9", b"a;b", b"(?i)error", b"^a", b"b$",
+                    b"^ab$", b"^error$", b"^x y$", b"^k=v$", b"^a;b$", b"^caf\xc3\xa9$", b"^a\\.b$"]      # a literal anchored at both ends
             pats = [rng.choice(pool) for _ in range(rng.choice([1, 2, 2, 3]))]
             reqs = []
             for _ in range(rng.choice([2, 3, 4, 6])):
                 reqs.append(f"{rng.randrange(2)}:{hexs(rng.choice(pats))}")
-            lines = [b"a b", b"ERROR 42", b"error", b"x y", b"", b"k=v", b"caf\xc3\xa9", b"a;b", b"zzz", b"ab"]
-            yield f"c12.select {','.join(hexs(l) for l in rng.sample(lines, rng.randrange(2, len(lines))))} {';'.join(reqs)}"
+            lines = [b"a b", b"ERROR 42", b"error", b"x y", b"", b"k=v", b"caf\xc3\xa9", b"a;b", b"zzz", b"ab",
+                     b"zab", b"ab c", b"an error 7", b"x y z", b"k=v&w", b"a;b;c", b"un caf\xc3\xa9 noir", b"a.b", b"axb"]
+            yield f"c12.select {','.join(hexs(l) for l in rng.sample(lines, rng.randrange(4, len(lines))))} {';'.join(reqs)}"
             continue
         mode = rng.choice(["grep", "grep", "cat", "tail"])
         if mode == "cat":
